@@ -189,7 +189,19 @@ def fp_cases(rng, n):
     lits = ['0.1', '0.2', '0.3', '1.0', '3.0', '1e16', '2.9999', '1e-5', '16777216.0f', '1.0f', '0.1f', '3.0f', '1.5L', '0.1L',
             '3.0L', '1e308', '1e-308', '4.9e-324', '0x1p-1074', '123456789.125', '7', '-3', '2u', '9007199254740993L', '18446744073709551615UL']
     cases = []
+    frac = ['0.5', '0.25f', '-0.5', '0.75L', '0.0', '-0.0', '(0.0/0.0)', '1e-30', '0.9999', '1.5', '-1.5f', '2.5L', '1e300', '0.1', '(1.0/0.0)']
     for i in range(n):
+        if rng.random() < 0.3:
+            # operators with an integer result applied to floating operands (truth value / comparison of values below 1, NaN, infinities)
+            A, B, C = (rng.choice(frac + lits[:8]) for _ in range(3))
+            form = rng.choice(['!%(a)s', '!!%(a)s', '%(a)s && %(b)s', '%(a)s || %(b)s', '%(a)s ? %(b)s : %(c)s', '%(a)s < %(b)s', '%(a)s <= %(b)s', '%(a)s > %(b)s',
+                               '%(a)s >= %(b)s', '%(a)s == %(b)s', '%(a)s != %(b)s', '(%(a)s < %(b)s) + (%(b)s != %(c)s) * 2', '(%(a)s == %(b)s) ? 3 : 4', '!%(a)s + !%(b)s',
+                               '(%(a)s && %(b)s) || !%(c)s', '(%(a)s ? 1 : 2) + (%(b)s ? 10 : 20)', '%(a)s < %(b)s ? %(a)s : %(b)s'])
+            ty = rng.choice(['int', 'long', '_Bool', 'unsigned char', 'double']) if '? %(b)s' in form or form.endswith(': %(b)s') else rng.choice(['int', 'long', '_Bool', 'unsigned char'])
+            cexpr = '(' + form % {'a': A, 'b': B, 'c': C} + ')'
+            rexpr = '(' + form % {'a': 'f%d_0' % i, 'b': 'f%d_1' % i, 'c': 'f%d_2' % i} + ')'
+            cases.append((i, ty, cexpr, rexpr, [A, B, C]))
+            continue
         k = rng.randrange(1, 4)
         ops = [rng.choice('+-*/') for _ in range(k)]
         ls = [rng.choice(lits) for _ in range(k + 1)]
@@ -210,6 +222,8 @@ def fp_cases(rng, n):
 
 
 def lit_type(l):
+    if l.startswith('('):
+        return 'double'
     if l.endswith('f'):
         return 'float'
     if l.endswith('UL'):
